@@ -82,9 +82,8 @@ def freq_ok(sizes, n, mfm):
     res = True
     for s in sizes:
         fl = (s / n >= mfm) if n > 0 else False
-        ex = (Fraction(int(s), int(n)) >= Fraction(mfm)) if n > 0 else False
-        near = n > 0 and abs(s / n - mfm) <= 1e-12 * max(1.0, mfm)
-        if fl != ex or near:
+        ex = (Fraction(int(s), int(n)) >= Fraction(repr(float(mfm)))) if n > 0 else False  # the decimal value the user wrote
+        if fl != ex:
             if res is True:
                 res = None
         elif not fl:
